@@ -48,8 +48,24 @@ pub struct Scn {
 
 enum Slot {
     Priv(PrivateKey),
-    Pay(Box<MaybeUninit<PayloadKey>>),
+    /// an inline PayloadKey living at `off` bytes into a harness-owned, 16-byte aligned buffer
+    /// (PayloadKey has alignment 1: inside an Option or after a u8 it sits at odd addresses)
+    Pay(Box<PayBuf>, usize),
     BoxPay(Box<PayloadKey>),
+}
+
+#[repr(align(16))]
+struct PayBuf([MaybeUninit<u8>; 64]);
+
+fn pay_new(key: PayloadKey, off: usize) -> Slot {
+    let mut b = Box::new(PayBuf([MaybeUninit::uninit(); 64]));
+    let off = off % 16;
+    unsafe { std::ptr::write((b.0.as_mut_ptr() as *mut u8).add(off) as *mut PayloadKey, key) };
+    Slot::Pay(b, off)
+}
+
+fn pay_ptr(b: &mut Box<PayBuf>, off: usize) -> *mut PayloadKey {
+    unsafe { (b.0.as_mut_ptr() as *mut u8).add(off) as *mut PayloadKey }
 }
 
 pub struct A7;
@@ -75,8 +91,25 @@ impl Family for A7 {
     fn generate(&self, rng: &mut Rng, _tier: Tier, idx: u64) -> Scn {
         let mut steps = vec![];
         let key = |rng: &mut Rng| {
-            let mut b = rng.bytes(32);
-            b[0] |= 1; // never all-zero: a watch on an all-zero key would prove nothing
+            let mut b = match rng.below(12) {
+                // key shapes with structure: repeated byte, bytes that XOR / sum to zero, mostly zero
+                0 => vec![*rng.pick(&[0x5au8, 0xff, 0x01, 0x80]); 32],
+                1 => {
+                    let mut v = rng.bytes(32);
+                    let x = v[..31].iter().fold(0u8, |a, b| a ^ b);
+                    v[31] = x;
+                    v
+                }
+                2 => {
+                    let mut v = vec![0u8; 32];
+                    v[rng.usize_below(32)] = 1 + rng.below(255) as u8;
+                    v
+                }
+                _ => rng.bytes(32),
+            };
+            if b.iter().all(|x| *x == 0) {
+                b[0] = 1; // never all-zero: a watch on an all-zero key would prove nothing
+            }
             Hx(b)
         };
         if idx % 3 == 0 {
@@ -155,14 +188,14 @@ impl Family for A7 {
                         out.count("probe.watched_key_was_already_zero", 1);
                     }
                 }
-                Slot::Pay(mut b) => {
-                    let p = b.as_mut_ptr();
+                Slot::Pay(mut b, off) => {
+                    let p = pay_ptr(&mut b, off);
                     let before: [u8; 32] = unsafe { std::ptr::read_volatile(p as *const [u8; 32]) };
                     unsafe { std::ptr::drop_in_place(p) };
                     // the slot is harness-owned memory: read it back after the destructor ran
                     let after: [u8; 32] = unsafe { std::ptr::read_volatile(p as *const [u8; 32]) };
                     if nonzero(&after) {
-                        out.violations.push(viol("C20", "payload_key_not_erased", format!("step {}: after drop the PayloadKey's 32 bytes still hold {} non-zero bytes", at, after.iter().filter(|b| **b != 0).count())));
+                        out.violations.push(viol("C20", "payload_key_not_erased", format!("step {}: after drop the PayloadKey's 32 bytes (at address offset {} mod 16) still hold {} non-zero bytes", at, off, after.iter().filter(|b| **b != 0).count())));
                     }
                     if !nonzero(&before) {
                         out.count("probe.watched_key_was_already_zero", 1);
@@ -196,9 +229,8 @@ impl Family for A7 {
                 }
                 Step::Payload(b) => {
                     sig.push('P');
-                    let mut slot: Box<MaybeUninit<PayloadKey>> = Box::new(MaybeUninit::uninit());
-                    slot.write(PayloadKey::new(&b.0));
-                    slots.push(Some(Slot::Pay(slot)));
+                    // the address offset is derived from the key so that programs stay plain data
+                    slots.push(Some(pay_new(PayloadKey::new(&b.0), b.0[1] as usize)));
                 }
                 Step::BoxedPayload(b) => {
                     sig.push('B');
@@ -209,11 +241,10 @@ impl Family for A7 {
                     let n = slots.len();
                     let new = match slots.get(*k % n.max(1)).and_then(|s| s.as_ref()) {
                         Some(Slot::Priv(p)) => Some(Slot::Priv(p.clone())),
-                        Some(Slot::Pay(p)) => {
-                            let c = unsafe { (*p.as_ptr()).clone() };
-                            let mut slot: Box<MaybeUninit<PayloadKey>> = Box::new(MaybeUninit::uninit());
-                            slot.write(c);
-                            Some(Slot::Pay(slot))
+                        Some(Slot::Pay(p, off)) => {
+                            let src = unsafe { (p.0.as_ptr() as *const u8).add(*off) as *const PayloadKey };
+                            let c = unsafe { (*src).clone() };
+                            Some(pay_new(c, off + 3))
                         }
                         Some(Slot::BoxPay(p)) => Some(Slot::BoxPay(Box::new((**p).clone()))),
                         None => None,
@@ -227,11 +258,9 @@ impl Family for A7 {
                     // inline payload keys are moved by value into a fresh slot; the destructor of
                     // the value runs only once, at its final place
                     let v = match v {
-                        Some(Slot::Pay(p)) => {
-                            let val: PayloadKey = unsafe { p.assume_init_read() };
-                            let mut slot: Box<MaybeUninit<PayloadKey>> = Box::new(MaybeUninit::uninit());
-                            slot.write(val);
-                            Some(Slot::Pay(slot))
+                        Some(Slot::Pay(mut p, off)) => {
+                            let val: PayloadKey = unsafe { std::ptr::read(pay_ptr(&mut p, off)) };
+                            Some(pay_new(val, off + 5))
                         }
                         other => other,
                     };
@@ -294,14 +323,14 @@ impl Family for A7 {
                                         out.violations.push(viol("C20", "private_key_block_not_released", format!("step {}: drop during unwinding", i)));
                                     }
                                 }
-                                Slot::Pay(mut b) => {
+                                Slot::Pay(mut b, off) => {
                                     struct Guard(*mut PayloadKey);
                                     impl Drop for Guard {
                                         fn drop(&mut self) {
                                             unsafe { std::ptr::drop_in_place(self.0) };
                                         }
                                     }
-                                    let p = b.as_mut_ptr();
+                                    let p = pay_ptr(&mut b, off);
                                     let g = Guard(p);
                                     let _ = run_guarded(move || {
                                         let _owned = g;
@@ -352,7 +381,7 @@ impl Family for A7 {
                     if let Some(Some(Slot::Priv(p))) = slots.get(*k % n.max(1)) {
                         let mut sk = [0u8; 32];
                         sk.copy_from_slice(p.as_bytes());
-                        let mode = Mode::Key { s_priv: Hx(sk.to_vec()), r_priv: Hx(sk.to_vec()), e_priv: None, payload: None };
+                        let mode = Mode::Key { s_priv: Hx(sk.to_vec()), r_priv: Hx(sk.to_vec()), e_priv: None, payload: None, omit_e_pub: false };
                         let ws = if dec { WriteScript::default() } else { WriteScript { caps: vec![], faults: vec![(*call, IoFault::Hard)], flush_faults: vec![] } };
                         alloc::start();
                         let e = run_encrypt(&mode, b"zeroize", &ReadScript::default(), &ws, &trace);
